@@ -288,6 +288,7 @@ func (c *FnCtx) assignTo(st *State, l ast.Expr, v Term, pos token.Pos) {
 		}
 		idx := sel.Index()
 		base := c.evalExpr(st, y.X)
+		root := base
 		if len(idx) > 1 {
 			base = c.selectPath(st, base, idx[:len(idx)-1], y.Pos())
 		}
@@ -297,6 +298,12 @@ func (c *FnCtx) assignTo(st *State, l ast.Expr, v Term, pos token.Pos) {
 		}
 		f := stt.Field(idx[len(idx)-1])
 		v = c.coerce(st, v, f.Type())
+		if isPtr && c.e.isInlineObj(n, f) {
+			// o.f = T{...} on an inline-object field: overwrite the sub-object's fields
+			c.nilCheck(st, base, y.Pos(), f.Name())
+			c.writeStructTo(st, c.inlineRef(st, n, f, base), v, pos, false)
+			return
+		}
 		if isPtr {
 			c.nilCheck(st, base, y.Pos(), f.Name())
 			c.writeField(st, base, n, f, v, pos, false)
@@ -324,7 +331,8 @@ func (c *FnCtx) assignTo(st *State, l ast.Expr, v Term, pos token.Pos) {
 		}
 		nv := Term{S: sApp(base.Sort.ctor(), parts...), Sort: base.Sort, T: base.T}
 		if len(idx) > 1 {
-			panic(unsup("nested struct value field assignment"))
+			c.storeNestedValue(st, root, y.X, idx[:len(idx)-1], nv, pos)
+			return
 		}
 		c.assignTo(st, y.X, nv, pos)
 	case *ast.IndexExpr:
@@ -736,14 +744,28 @@ func (c *FnCtx) collectMods(n ast.Node, ms *modSet, info *types.Info, depth int)
 				// find the struct owning the last field
 				t := sel.Recv()
 				idx := sel.Index()
+				var lastPtrN *types.Named // the last field reached through a pointer: a write below it (through nested
+				var lastPtrF *types.Var   // struct VALUES) modifies that field's heap array
 				for i, ix := range idx {
 					nn, stt, isPtr := derefNamedStruct(t)
 					if nn == nil {
 						break
 					}
 					f := stt.Field(ix)
+					if isPtr && c.e.isInlineObj(nn, f) {
+						if i == len(idx)-1 {
+							c.allFieldMods(f.Type(), ms)
+						}
+						t = types.NewPointer(f.Type())
+						continue
+					}
+					if isPtr {
+						lastPtrN, lastPtrF = nn, f
+					}
 					if i == len(idx)-1 {
-						if isPtr {
+						if !isPtr && lastPtrN != nil {
+							ms.heap[fieldKey(lastPtrN, lastPtrF.Name())] = arraySort(sV, d.sortOf(lastPtrF.Type()))
+						} else if isPtr {
 							ms.heap[fieldKey(nn, f.Name())] = arraySort(sV, d.sortOf(f.Type()))
 							k := nn.Obj().Pkg().Path() + "." + nn.Obj().Name() + "." + f.Name()
 							for _, ow := range c.e.onwrites[k] {
